@@ -418,13 +418,21 @@ func kindedUnionNodeAssemblerMethodTemplateMunge(
 	if twoReturns {
 		maybeNilComma += "nil,"
 	}
+	nullableClause := ""
+	if methodName == "AssignNull" {
+		// When the union itself sits in a nullable position, null is the position's, not a member's.
+		nullableClause = `
+			case allowNull:
+				*na.m = schema.Maybe_Null
+				return nil`
+	}
 	return `
 		func (na *_{{ .Type | TypeSymbol }}__ReprAssembler) ` + methodSig + ` {
 			switch *na.m {
 			case schema.Maybe_Value, schema.Maybe_Null:
 				panic("invalid state: cannot assign into assembler that's already finished")
 			case midvalue:
-				panic("invalid state: cannot assign into assembler that's already working on a larger structure!")
+				panic("invalid state: cannot assign into assembler that's already working on a larger structure!")` + nullableClause + `
 			}
 			{{- $returned := false -}}
 			{{- range $i, $member := .Type.Members }}
